@@ -300,24 +300,25 @@ def fixed_guard_ok(fn):
         def _check_fixed_control_value(self):
             if self.control_value is None:
                 return
-            num_controls = len(self.controls) if self.controls is not None else 0
-            if self.control_value != 2**num_controls - 1:
+            if not self.controls or self.control_value != 2 ** len(self.controls) - 1:
                 raise ValueError(...)"""
     body = [st for st in fn.body if not (isinstance(st, ast.Expr) and isinstance(st.value, ast.Constant))]
-    if len(body) != 3:
+    if len(body) != 2:
         return False
-    a, b, c = body
+    a, c = body
     ok_a = isinstance(a, ast.If) and not a.orelse and len(a.body) == 1 and isinstance(a.body[0], ast.Return) \
         and a.body[0].value is None and isinstance(a.test, ast.Compare) and _is_self_attr(a.test.left, "control_value") \
-        and isinstance(a.test.ops[0], ast.Is) and getattr(a.test.comparators[0], "value", 0) is None
-    ok_b = isinstance(b, ast.Assign) and getattr(b.targets[0], "id", None) == "num_controls" and isinstance(b.value, ast.IfExp) \
-        and _len_of(b.value.body, lambda y: _is_self_attr(y, "controls")) and isinstance(b.value.test, ast.Compare) \
-        and _is_self_attr(b.value.test.left, "controls") and isinstance(b.value.test.ops[0], ast.IsNot) \
-        and getattr(b.value.test.comparators[0], "value", 0) is None and getattr(b.value.orelse, "value", None) == 0
-    ok_c = isinstance(c, ast.If) and not c.orelse and _only_raise(c.body, "ValueError") and isinstance(c.test, ast.Compare) \
-        and _is_self_attr(c.test.left, "control_value") and isinstance(c.test.ops[0], ast.NotEq) \
-        and ast.unparse(c.test.comparators[0]).replace(" ", "") == "2**num_controls-1"
-    return ok_a and ok_b and ok_c
+        and len(a.test.ops) == 1 and isinstance(a.test.ops[0], ast.Is) and getattr(a.test.comparators[0], "value", 0) is None
+    ok_c = isinstance(c, ast.If) and not c.orelse and _only_raise(c.body, "ValueError") and isinstance(c.test, ast.BoolOp) \
+        and isinstance(c.test.op, ast.Or) and len(c.test.values) == 2
+    if not (ok_a and ok_c):
+        return False
+    l, r = c.test.values
+    ok_l = isinstance(l, ast.UnaryOp) and isinstance(l.op, ast.Not) and _is_self_attr(l.operand, "controls")
+    ok_r = isinstance(r, ast.Compare) and _is_self_attr(r.left, "control_value") and len(r.ops) == 1 \
+        and isinstance(r.ops[0], ast.NotEq) \
+        and ast.unparse(r.comparators[0]).replace(" ", "") == "2**len(self.controls)-1"
+    return ok_l and ok_r
 
 
 def extract(tables=None):
